@@ -7,7 +7,7 @@ VERIF = os.path.dirname(os.path.dirname(os.path.abspath(__file__)))
 CHECKS = {
     "C04": dict(
         technique="Coq proof over definitions regenerated from mode.rs (finite domain 2^16, vm_compute + forallb lifting) + differential test of the binary against the Gallina definitions and lstat",
-        text="Theorems C04_mode_string / C04_perm_bits_agree / C04_exactly_one_type are proved for all 65 536 mode values over Gallina definitions that tools/rs2v regenerates from src/mode.rs on every run; the binary's mode columns are compared on disk (every creatable file type x permission values) with those definitions and with lstat.",
+        text="Theorems C04_mode_string / C04_perm_bits_agree / C04_exactly_one_type are proved for all 65 536 mode values over Gallina definitions that tools/rs2v regenerates from src/mode.rs on every run; C04_extension_class (the is_* classes are `lower-cased name ends with a configured ending`, for every name and list) over util::has_extension and the default lists regenerated from util/mod.rs and config.rs. The binary's mode columns and extension classes are compared on disk with those definitions and with lstat / an independent oracle.",
         note="Partial: digests, owner-name lookup, xattrs and lstat itself are runtime; for them only the on-disk comparison against Python oracles applies. Trusted: Coq kernel + vm_compute, rs2v translator, Python observer (os.lstat).",
         design="6 C04"),
 }
